@@ -13,8 +13,33 @@ import Cello.HeapRec
 import CelloGen.GcMark
 import CelloProofs.Lemmas.Mark
 import CelloProofs.Lemmas.MarkRec
+import CelloProofs.Lemmas.MarkRetype
 
 namespace Cello.Heap
+
+/-! ### the source-derived facts the model stands on (first, so that a source change that breaks them is named first) -/
+
+/-- the parts of GC.c and of the Mark instances the model was written against are the ones in /repo now -/
+theorem C01_source_as_modelled :
+    CelloGen.GcMark.itemRejects = CelloGen.GcMark.itemRejectsModelled ∧
+    CelloGen.GcMark.rootPhase = CelloGen.GcMark.rootPhaseModelled ∧
+    CelloGen.GcMark.sweepFrees = CelloGen.GcMark.sweepFreesModelled ∧
+    CelloGen.GcMark.markBodies.map (fun x => x.1) = ["Array", "List", "Table", "Tree", "Tuple", "Thread"] ∧
+    CelloGen.GcMark.markBodies.map (fun x => x.2.1) = CelloGen.GcMark.markBodies.map (fun x => x.2.2) :=
+  ⟨rfl, rfl, rfl, rfl, rfl⟩
+
+/-- **Every Mark instance hands every occupied element to the callback, unconditionally** (generated facts, re-extracted
+    from the source on every run): in `Array_Mark`, `List_Mark`, `Table_Mark`, `Tree_Mark`, `Tuple_Mark`, `Thread_Mark`
+    there is no `return` (but Tuple's `items is NULL`), the loop runs over all items / all slots / up to Terminal, and no
+    struct member is read but the loop bound — in particular no cached "holds no references" flag; the container structs
+    have no member the model does not know; and the element / key / value types are (re)defined by `X_New` and `X_Assign`
+    only (the two model operations that type a container). -/
+theorem C01_mark_instances_unconditional :
+    CelloGen.GcMark.markFacts = CelloGen.GcMark.markFactsModelled ∧
+    (∀ ty ∈ ["Array", "List", "Table", "Tree", "Tuple", "Thread"], CelloGen.GcMark.markVisitsAll ty = true) ∧
+    CelloGen.GcMark.containerStructs = CelloGen.GcMark.containerStructsModelled ∧
+    CelloGen.GcMark.typeWriters = CelloGen.GcMark.typeWritersModelled := by
+  refine ⟨rfl, by decide, rfl, rfl⟩
 
 section main
 variable {σ : Type} (S : MarkSet σ) (c : Cfg) (h : Heap)
@@ -136,8 +161,9 @@ theorem C01_gcMark_mono (thread : Obj) (s1 s2 : List Word) (hsub : ∀ w ∈ s1,
 end main
 
 /-- **C01 over histories.** For every sequence of allocations, stores into registered objects (pointer stores, container
-    insertions and removals: any new contents), changes of thread-local storage and of the stack, explicit deletions and
-    collection points, starting from any well-formed registry: at every collection of the history, every object
+    insertions and removals: any new contents), RE-TYPING operations (`assign` between containers — the target takes
+    over the source's element / key / value types —, `copy`, `resize(…, 0)`), changes of thread-local storage and of the
+    stack, explicit deletions and collection points, starting from any well-formed registry: at every collection of the history, every object
     reachable at that moment from thread-local storage, a root-registered entry or a stack word stays registered with
     unchanged contents and is not put on the pending list; and the registry is well formed afterwards. -/
 theorem C01_history_safe {σ : Type} (S : MarkSet σ) (c : Cfg) (ops : List HOp) (s0 : HState) (wf : s0.heap.WF)
@@ -154,6 +180,139 @@ theorem C01_history_safe {σ : Type} (S : MarkSet σ) (c : Cfg) (ops : List HOp)
   obtain ⟨hwf, hp⟩ := h2 ev hev
   obtain ⟨e1, e2, e3⟩ := C01_collect_safe S c ev.before.heap hwf ev.before.thread ev.before.stack a hr
   exact ⟨by rw [hp]; exact e3, e1, e2⟩
+
+/-! ### containers whose element / key / value types change during their life -/
+
+/-- **What a container presents to the marker is determined by its CURRENT element types.**  An Array / List whose
+    current element type is `ety` presents the words of its elements iff `ety` is not a leaf type; a Table / Tree with
+    current key type `kty` and value type `vty` presents the words of the keys iff `kty` is not a leaf type and the words
+    of the values iff `vty` is not.  For the source as it is now: Ref elements / keys / values present their word, Int,
+    Float and String ones present nothing — whatever the types of the container were earlier in its life. -/
+theorem C01_fields_typed (ty : String) (hl : Cfg.current.isLeaf ty = false) (hm : Cfg.current.hasMark ty = true)
+    (vals : List (List Word)) (kvs : List (List Word × List Word)) :
+    (∀ ety, fields Cfg.current (.cont ty (seqElems ety vals)) = vals.flatMap (elemWords Cfg.current ety)) ∧
+    (∀ kty vty, fields Cfg.current (.cont ty (mapElems kty vty kvs)) =
+        kvs.flatMap (fun kv => elemWords Cfg.current kty kv.1 ++ elemWords Cfg.current vty kv.2)) ∧
+    (∀ ws, elemWords Cfg.current "Ref" ws = ws) ∧
+    (∀ ety ∈ ["Int", "Float", "String"], ∀ ws, elemWords Cfg.current ety ws = []) := by
+  refine ⟨fun ety => ?_, fun kty vty => ?_, fun ws => ?_, ?_⟩
+  · rw [fields_cont _ hl hm, fieldsL_seqElems]
+  · rw [fields_cont _ hl hm, fieldsL_mapElems]
+  · exact elemWords_scan _ (by decide) (by decide) (by decide) ws
+  · intro ety he ws
+    simp only [List.mem_cons, List.not_mem_nil, or_false] at he
+    rcases he with h | h | h <;> subst h <;> exact elemWords_leaf _ (by decide) ws
+
+/-- **Re-typing.** After `assign(dst, src)` (`Array_Assign`, `List_Assign`, `Table_Assign`, `Tree_Assign`, `Tuple_Assign`)
+    the target presents to the marker exactly the words the source presents — whatever the target held and whatever its
+    element types were before (leaf → reference-bearing: everything the source reaches; reference-bearing → leaf: nothing);
+    `copy(src)` presents what `src` presents; `resize(…, 0)` presents nothing. -/
+theorem C01_assign_retypes (c : Cfg) (h : Heap) {ty ty' : String} (hl : c.isLeaf ty = false) (hm : c.hasMark ty = true)
+    (hl' : c.isLeaf ty' = false) (hm' : c.hasMark ty' = true) (es0 es : List Obj) (i0 items : List Word) :
+    fields c (Obj.assignFrom h (.cont ty es0) (.cont ty' es)) = fields c (.cont ty' es) ∧
+    fields c (Obj.assignFrom h (.tup ty i0) (.tup ty' items)) = fields c (.tup ty' items) ∧
+    fields c (Obj.assignFrom h (.cont ty es0) (.tup ty' items)) = items.flatMap (fun w => elemWords c "Ref" [h.derefIfPtr w]) ∧
+    fields c (Obj.copyOf h (.cont ty' es)) = fields c (.cont ty' es) ∧
+    fields c (Obj.cleared (.cont ty es0)) = [] :=
+  ⟨fields_assignFrom_cont c h hl hm hl' hm' es0 es, fields_assignFrom_tup c h hl hm hl' hm' i0 items,
+   fields_assignFrom_cont_tup c h hl hm es0 items, rfl, fields_cleared_cont c es0⟩
+
+/-- **A re-typed container as the sole path.**  In any state with a well-formed registry: a container at `a` (whatever
+    its contents and element types — e.g. a Table constructed as String → Int) is `assign`ed from the container at `b`;
+    `b` is deleted; only `a` is held by the stack.  Then every registered object `x` that the SOURCE presented to the
+    marker (a Ref value or key of `b`) survives the next collection: it is not put on the pending list and is still
+    registered afterwards. -/
+theorem C01_retyped_sole_path_safe {σ : Type} (S : MarkSet σ) (c : Cfg) (s : HState) (wf : s.heap.WF)
+    (a b x : Addr) (ty ty' : String) (es0 es : List Obj) (ra rb : Bool) (hab : a ≠ b) (hxb : x ≠ b)
+    (ha : s.heap.lookup a = some ⟨.cont ty es0, ra⟩) (hb : s.heap.lookup b = some ⟨.cont ty' es, rb⟩)
+    (hty : c.isLeaf ty = false ∧ c.hasMark ty = true) (hty' : c.isLeaf ty' = false ∧ c.hasMark ty' = true)
+    (hx : x ∈ fields c (.cont ty' es)) (hreg : (s.heap.lookup x).isSome = true) :
+    (∀ ev ∈ (HState.run S c [.assign a b, .del b, .setStack [a], .collect] s).2, x ∉ ev.pending) ∧
+    (HState.run S c [.assign a b, .del b, .setStack [a], .collect] s).2.length = 1 ∧
+    ((HState.run S c [.assign a b, .del b, .setStack [a], .collect] s).1.heap.lookup x).isSome = true := by
+  -- the heap the collection runs on
+  let h2 : Heap := (s.heap.write a (.cont ty es)).remove b
+  have hrun : HState.run S c [.assign a b, .del b, .setStack [a], .collect] s =
+      ({ heap := (collect S c h2 s.thread [a]).1, thread := s.thread, stack := [a] },
+       [⟨{ heap := h2, thread := s.thread, stack := [a] }, (collect S c h2 s.thread [a]).2⟩]) := by
+    simp only [HState.run, HState.step, ha, hb]
+    rfl
+  have wf2 : h2.WF := remove_wf (write_wf wf a _) b
+  have la : h2.lookup a = some ⟨.cont ty es, ra⟩ := by
+    show ((s.heap.write a (.cont ty es)).remove b).lookup a = _
+    rw [remove_lookup_ne hab, write_lookup_self ha]
+  have lx : (h2.lookup x).isSome = true := by
+    show (((s.heap.write a (.cont ty es)).remove b).lookup x).isSome = true
+    rw [remove_lookup_ne hxb, write_isSome]; exact hreg
+  have hfx : x ∈ fields c (.cont ty es) := by
+    rw [fields_cont c hty.1 hty.2]; rw [fields_cont c hty'.1 hty'.2] at hx; exact hx
+  have hreach : Reachable c h2 (rootWords c h2 s.thread [a]) x :=
+    .step (.root (by simp [rootWords]) (by rw [la]; rfl)) ⟨_, la, hfx⟩ lx
+  obtain ⟨e1, _, e3⟩ := C01_collect_safe S c h2 wf2 s.thread [a] x hreach
+  rw [hrun]
+  refine ⟨?_, rfl, ?_⟩
+  · intro ev hev
+    simp only [List.mem_cons, List.not_mem_nil, or_false] at hev
+    subst hev; exact e3
+  · show ((collect S c h2 s.thread [a]).1.lookup x).isSome = true
+    rw [e1]; exact lx
+
+/-- non-vacuity: the hypotheses of `C01_retyped_sole_path_safe` hold for a Table constructed as String → Int (at 4096) that
+    is assigned from a Table String → Ref (at 4160) whose value points to the Probe at 4224; and before the re-typing the
+    target presents nothing (its Int value equals the address 4224 and is not a reference) -/
+example : retypeHeap.WF ∧
+    retypeHeap.lookup 4096 = some ⟨.cont "Table" (mapElems "String" "Int" [([0], [4224])]), false⟩ ∧
+    retypeHeap.lookup 4160 = some ⟨.cont "Table" (mapElems "String" "Ref" [([0], [4224])]), false⟩ ∧
+    (Cfg.current.isLeaf "Table" = false ∧ Cfg.current.hasMark "Table" = true) ∧
+    (4224 : Addr) ∈ fields Cfg.current (.cont "Table" (mapElems "String" "Ref" [([0], [4224])])) ∧
+    fields Cfg.current (.cont "Table" (mapElems "String" "Int" [([0], [4224])])) = [] ∧
+    (retypeHeap.lookup 4224).isSome = true :=
+  ⟨retypeHeap_wf, rfl, rfl, by decide, by decide, by decide, rfl⟩
+
+/-- **Refuted: a Mark instance that consults a verdict cached at construction.**  Let `Table_Mark` skip the table when a
+    flag computed by `Table_New` from the key / value types says "no references" (and not recomputed by `Table_Assign`):
+    for the marker that is the table as it was CONSTRUCTED (4096 ↦ String → Int, presenting nothing) although its current
+    value is the assigned one.  Then the Probe at 4224 — reachable from the stack word 4096 through the re-typed table in
+    the heap as it is — is put on the pending list. -/
+theorem C01_cached_leaf_flag_refuted :
+    let hNow : Heap := (retypeHeap.write 4096 (.cont "Table" (mapElems "String" "Ref" [([0], [4224])]))).remove 4160
+    let hSeen : Heap := retypeHeap.remove 4160     -- what a marker trusting the construction-time flag traces
+    let thread : Obj := .thr "Thread" (.cont "Table" [])
+    Reachable Cfg.current hNow (rootWords Cfg.current hNow thread [4096]) 4224 ∧
+    4224 ∈ (collect listSet Cfg.current hSeen thread [4096]).2 ∧
+    4224 ∉ (collect listSet Cfg.current hNow thread [4096]).2 := by
+  intro hNow hSeen thread
+  have wfNow : hNow.WF := remove_wf (write_wf retypeHeap_wf _ _) _
+  have la : hNow.lookup 4096 = some ⟨.cont "Table" (mapElems "String" "Ref" [([0], [4224])]), false⟩ := by
+    show ((retypeHeap.write 4096 _).remove 4160).lookup 4096 = _
+    rw [remove_lookup_ne (by decide), write_lookup_self (e := ⟨_, false⟩) rfl]
+  have lx : (hNow.lookup 4224).isSome = true := by
+    show (((retypeHeap.write 4096 _).remove 4160).lookup 4224).isSome = true
+    rw [remove_lookup_ne (by decide), write_isSome]; rfl
+  have hreach : Reachable Cfg.current hNow (rootWords Cfg.current hNow thread [4096]) 4224 :=
+    .step (.root (by simp [rootWords]) (by rw [la]; rfl)) ⟨_, la, by decide⟩ lx
+  refine ⟨hreach, ?_, (C01_collect_safe listSet Cfg.current hNow wfNow thread [4096] 4224 hreach).2.2⟩
+  rw [C01_sweep_exact listSet Cfg.current hSeen (remove_wf retypeHeap_wf _) thread [4096] 4224]
+  refine ⟨⟨.raw "Probe" [7], false⟩, rfl, rfl, ?_⟩
+  intro hr
+  -- from the stack word 4096 the table as constructed (String → Int) leads nowhere
+  have key : ∀ y, Reachable Cfg.current hSeen (rootWords Cfg.current hSeen thread [4096]) y → y = 4096 := by
+    intro y hy
+    induction hy with
+    | root hmem _ =>
+      have hw : rootWords Cfg.current hSeen thread [4096] = [4096] := by decide
+      rw [hw] at hmem
+      simpa using hmem
+    | step _ hp _ ih =>
+      subst ih
+      obtain ⟨e, hl, hb⟩ := hp
+      have he : e = ⟨.cont "Table" (mapElems "String" "Int" [([0], [4224])]), false⟩ := by
+        have : hSeen.lookup 4096 = some ⟨.cont "Table" (mapElems "String" "Int" [([0], [4224])]), false⟩ := rfl
+        rw [this] at hl; exact (Option.some.inj hl).symm
+      subst he
+      have hf : fields Cfg.current (.cont "Table" (mapElems "String" "Int" [([0], [4224])])) = [] := by decide
+      rw [hf] at hb; cases hb
+  exact absurd (key 4224 hr) (by decide)
 
 /-- **T1 `terminates`.** The marker is a total function on every heap (Lean accepted `dfs` with the measure
     (unmarked registered entries, worklist length)); with the mark bits kept as the list of marking events, no
@@ -198,15 +357,6 @@ theorem C01_tables :
     Cfg.current.guarded = true ∧ Cfg.current.tlsCallback = true ∧ Cfg.current.scanInclusive = true := by
   decide
 
-/-- the parts of GC.c and of the Mark instances the model was written against are the ones in /repo now -/
-theorem C01_source_as_modelled :
-    CelloGen.GcMark.itemRejects = CelloGen.GcMark.itemRejectsModelled ∧
-    CelloGen.GcMark.rootPhase = CelloGen.GcMark.rootPhaseModelled ∧
-    CelloGen.GcMark.sweepFrees = CelloGen.GcMark.sweepFreesModelled ∧
-    CelloGen.GcMark.markBodies.map (fun x => x.1) = ["Array", "List", "Table", "Tree", "Tuple", "Thread"] ∧
-    CelloGen.GcMark.markBodies.map (fun x => x.2.1) = CelloGen.GcMark.markBodies.map (fun x => x.2.2) :=
-  ⟨rfl, rfl, rfl, rfl, rfl⟩
-
 /-- **Reachability goes through every representation** (for the source as it is now): the words the collector
     presents to `GC_Mark_Item` when it traces … -/
 theorem C01_fields_current (ws : List Word) (w : Word) (es : List Obj) :
@@ -224,17 +374,12 @@ theorem C01_fields_current (ws : List Word) (w : Word) (es : List Obj) :
     -- thread-local storage: the words of every key and value of the thread's table
     tlsWords Cfg.current (.thr "Thread" (.cont "Table" es)) = fieldsL Cfg.current es := by
   have hc : Cfg.current.scanInclusive = true := by decide
+  have hcfg : Cfg.current.leaf = ["Int", "Float", "String", "Type", "File", "Process", "Function"] ∧
+      Cfg.current.mark = ["Array", "List", "Table", "Thread", "Tree", "Tuple", "ProbeM"] ∧
+      Cfg.current.tlsCallback = true := by decide
+  obtain ⟨hleaf, hmark, htls⟩ := hcfg
   refine ⟨?_, ?_, ?_, ?_, ?_, ?_, ?_, ?_, ?_⟩ <;>
-    simp [fields, viaMark, tlsWords, scanWords, hc, (by decide : Cfg.current.isLeaf "Probe" = false),
-      (by decide : Cfg.current.hasMark "Probe" = false), (by decide : Cfg.current.isLeaf "Ref" = false),
-      (by decide : Cfg.current.hasMark "Ref" = false), (by decide : Cfg.current.isLeaf "Box" = false),
-      (by decide : Cfg.current.hasMark "Box" = false), (by decide : Cfg.current.isLeaf "Array" = false),
-      (by decide : Cfg.current.hasMark "Array" = true), (by decide : Cfg.current.isLeaf "List" = false),
-      (by decide : Cfg.current.hasMark "List" = true), (by decide : Cfg.current.isLeaf "Table" = false),
-      (by decide : Cfg.current.hasMark "Table" = true), (by decide : Cfg.current.isLeaf "Tree" = false),
-      (by decide : Cfg.current.hasMark "Tree" = true), (by decide : Cfg.current.isLeaf "Tuple" = false),
-      (by decide : Cfg.current.hasMark "Tuple" = true), (by decide : Cfg.current.isLeaf "Thread" = false),
-      (by decide : Cfg.current.hasMark "Thread" = true), (by decide : Cfg.current.tlsCallback = true)]
+    simp [fields, viaMark, tlsWords, scanWords, hc, Cfg.isLeaf, Cfg.hasMark, hleaf, hmark, htls]
 
 /-- an element embedded in a container contributes its own words, wherever it sits -/
 theorem C01_fieldsL_mem (c : Cfg) (es : List Obj) (e : Obj) (he : e ∈ es) (w : Word) (hw : w ∈ fields c e) :
@@ -326,6 +471,26 @@ theorem C01_dangling_tuple_item_refuted {σ : Type} (S : MarkSet σ) (d : Nat) :
   intro hs
   have := hs 4096 ⟨.tup "Tuple" [4160], false⟩ rfl 4160 (by simp [handed])
   exact absurd this (by decide)
+
+/-- **Refuted (known finding KF-C01-tuple-aliases-elements, not repaired): completion after `assign(tuple, array)`.**
+    `Tuple_Assign(t, obj)` stores `get(obj, i)`: for an Array / List source these are pointers to the elements EMBEDDED in the
+    source's storage — words that are not registered objects (no embedded element is ever registered) and that dangle as
+    soon as the source grows, shrinks or is cleared.  In every well-formed heap, a registered Tuple whose first stored
+    pointer is not a registered object makes the marker with the call structure of GC.c leave the model at every budget ≥ 2:
+    `GC_Mark_And_Recurse` finds the pointer unregistered and calls `GC_Recurse` on it (on the real machine: a freed or
+    reallocated block, witness corpus/kf_c01_tuple_alias.ops).  This is why `Obj.assignFrom` has no Tuple ← Array / List
+    case and the histories assign a Tuple only from a Tuple. -/
+theorem C01_tuple_aliases_elements_refuted {σ : Type} (S : MarkSet σ) (h : Heap) (wf : h.WF) (a w : Addr) (rest : List Word)
+    (r : Bool) (ha : h.lookup a = some ⟨.tup "Tuple" (w :: rest), r⟩) (hw : h.lookup w = none) (d : Nat) :
+    ¬ h.CallbackSafe ∧ (level S Cfg.current h (d + 2)).item a S.empty = .ub := by
+  refine ⟨?_, tuple_unregistered_item_ub S Cfg.current h wf (by decide) (by decide) (by decide) a w rest r ha hw d⟩
+  intro hs
+  have := hs a _ ha w (by simp [handed])
+  rw [hw] at this; cases this
+
+/-- non-vacuity: the heap of the other dangling-Tuple finding meets the hypotheses -/
+example {σ : Type} (S : MarkSet σ) (d : Nat) : (level S Cfg.current danglingHeap (d + 2)).item 4096 S.empty = .ub :=
+  (C01_tuple_aliases_elements_refuted S danglingHeap danglingHeap_wf 4096 4160 [] false rfl rfl d).2
 
 /-- … while the guarded callback completes on it and marks it (non-vacuity of `C01_rec_agrees`) -/
 example : (level listSet Cfg.current selfTupleHeap 3).item 4096 [] = .ok [4096] := by decide
